@@ -46,13 +46,14 @@ def run_sched(ctx):
     provs = (MockProvider(False, True), MockProvider(False, True))
     traces = []
     for c in confs:
-        st = SyncState(provs, shuffle=False)
+        # priorities come from the application's prioritize(side, path), consulted when an entry gets its path
+        # (specification priorities 1..4 stand for -1..2); they are in place before the change times are set, because
+        # raising the priority of an entry that already has change times is a punt that moves those times later
+        table = {"/p%d" % i: e["prio"] - 2 for i, e in enumerate(c["ents"])}
+        st = SyncState(provs, shuffle=False, prioritize=lambda side, path, _t=table: _t.get(path, 0))
         ents = []
         for i, e in enumerate(c["ents"]):
             ent = SyncEntry(st, FILE)
-            # the priority is given before the change times: raising the priority of an entry that already has
-            # change times is a punt, which moves those times later (that is the deferral rule, not the selection rule)
-            ent.priority = e["prio"] - 2          # specification priorities 1..4 stand for -1..2
             for side in (0, 1):
                 ent[side].oid = "o%d_%d" % (i, side)
                 ent[side].path = "/p%d" % i
